@@ -18,8 +18,18 @@ type C15Case struct {
 	// Mode: "" - a fresh tracker per limit; "shared" - one tracker asked for every limit in turn;
 	// "incremental" - one tracker, asked (for every limit) after each prefix length in Cuts and at the
 	// end, the answer judged against the blocks recorded so far.
-	Mode string `json:"mode,omitempty"`
-	Cuts []int  `json:"cuts,omitempty"`
+	// "reorg" - one tracker; before the blocks listed in Stale the caller keeps a copy of the tracker VALUE
+	// (the constructor hands it out by value), records a stale tip - another valid block on the same state -
+	// and then goes back to the copy and records the block that stays. The schedule is about the blocks
+	// that stay.
+	Mode  string   `json:"mode,omitempty"`
+	Cuts  []int    `json:"cuts,omitempty"`
+	Stale []c15Tip `json:"stale,omitempty"`
+}
+
+type c15Tip struct {
+	At int   `json:"at"` // index of the staying block the stale tip competes with
+	B  Block `json:"b"`
 }
 
 func genC15(t *rapid.T) C15Case {
@@ -36,7 +46,20 @@ func genC15(t *rapid.T) C15Case {
 	if total > 0 {
 		c.Mems = append(c.Mems, rapid.IntRange(1, total).Draw(t, "mid"))
 	}
-	c.Mode = rapid.SampledFrom([]string{"", "", "shared", "incremental"}).Draw(t, "mode")
+	c.Mode = rapid.SampledFrom([]string{"", "", "shared", "incremental", "reorg"}).Draw(t, "mode")
+	if c.Mode == "reorg" && len(c.Blocks) > 1 {
+		f := &model.Forest{}
+		small := lim
+		if small.maxAdd > 40 {
+			small.maxAdd = 40
+		}
+		for i, b := range c.Blocks {
+			if i > 0 && rapid.IntRange(0, 2).Draw(t, "stale-here") == 0 {
+				c.Stale = append(c.Stale, c15Tip{At: i, B: genBlock(t, f.Clone(), small, false)})
+			}
+			applyToModel(f, b)
+		}
+	}
 	if c.Mode == "incremental" && len(c.Blocks) > 1 {
 		seen := map[int]bool{}
 		for k := rapid.IntRange(1, 3).Draw(t, "ncuts"); k > 0; k-- {
@@ -163,12 +186,14 @@ func runC15(c C15Case) *Result {
 			return res.failf("case error: memory limit %d", mem)
 		}
 	}
+	var ar arena
 	switch c.Mode {
 	case "":
 		for _, mem := range c.Mems {
 			cs := u.NewCachingScheduleTracker(nb)
 			for i := range c.Blocks {
-				cs.AddBlockSummary(cloneU64(summaries[i]), uint16(numAdds[i]))
+				ar.next()
+				cs.AddBlockSummary(ar.u64s(summaries[i]), uint16(numAdds[i])) // every block summary is handed over in the same recycled buffer
 			}
 			if err := judge(cs.GenerateCachingSchedule(mem), nb, mem, ""); err != nil {
 				return res.failf("%v", err)
@@ -177,7 +202,8 @@ func runC15(c C15Case) *Result {
 	case "shared":
 		cs := u.NewCachingScheduleTracker(nb)
 		for i := range c.Blocks {
-			cs.AddBlockSummary(cloneU64(summaries[i]), uint16(numAdds[i]))
+			ar.next()
+			cs.AddBlockSummary(ar.u64s(summaries[i]), uint16(numAdds[i])) // every block summary is handed over in the same recycled buffer
 		}
 		for k, mem := range c.Mems {
 			if err := judge(cs.GenerateCachingSchedule(mem), nb, mem, fmt.Sprintf("call %d on the same tracker: ", k+1)); err != nil {
@@ -195,7 +221,8 @@ func runC15(c C15Case) *Result {
 			at[k] = true
 		}
 		for i := range c.Blocks {
-			cs.AddBlockSummary(cloneU64(summaries[i]), uint16(numAdds[i]))
+			ar.next()
+			cs.AddBlockSummary(ar.u64s(summaries[i]), uint16(numAdds[i])) // every block summary is handed over in the same recycled buffer
 			if !at[i+1] {
 				continue
 			}
@@ -207,6 +234,44 @@ func runC15(c C15Case) *Result {
 		}
 		if len(c.Cuts) > 0 {
 			res.class("tracker:asked-between-blocks")
+		}
+	case "reorg":
+		cs := u.NewCachingScheduleTracker(nb)
+		tips := map[int]Block{}
+		for _, tp := range c.Stale {
+			if tp.At < 1 || tp.At >= nb {
+				return res.failf("case error: stale tip at block %d", tp.At)
+			}
+			tips[tp.At] = tp.B
+		}
+		g := &model.Forest{}
+		for i, b := range c.Blocks {
+			if tip, ok := tips[i]; ok {
+				for _, sl := range tip.Del {
+					if sl < 0 || sl >= len(g.Dead) || g.Dead[sl] {
+						return res.failf("case error: stale tip at block %d deletes slot %d which is not live", i, sl)
+					}
+				}
+				if tip.Add > 65535 {
+					return res.failf("case error: more than 65535 additions")
+				}
+				before := cs // the tracker is a plain value: this is the caller's snapshot
+				ar.next()
+				cs.AddBlockSummary(ar.u64s(g.View().Proof(g.HashesOf(tip.Del)).Targets), uint16(tip.Add))
+				cs = before
+				res.count("stale-tips-recorded-and-dropped", 1)
+			}
+			ar.next()
+			cs.AddBlockSummary(ar.u64s(summaries[i]), uint16(numAdds[i]))
+			applyToModel(g, b)
+		}
+		for k, mem := range c.Mems {
+			if err := judge(cs.GenerateCachingSchedule(mem), nb, mem, fmt.Sprintf("after %d stale tips were recorded and dropped (tracker value copied back), call %d: ", len(tips), k+1)); err != nil {
+				return res.failf("%v", err)
+			}
+		}
+		if len(tips) > 0 {
+			res.class("tracker:reorganised-by-value-copy")
 		}
 	default:
 		return res.failf("case error: mode %q", c.Mode)
